@@ -585,10 +585,10 @@ func ruleOffsetFits(c *Ctx, r *Rep, tier string) {
 			return
 		}
 		k := symKey(bo)
-		if bo.Op == token.MUL && strings.Contains(k, "r.BytesPerLine") {
+		if bo.Op == token.MUL && strings.Contains(k, "$0.BytesPerLine") {
 			mulField = true
 		}
-		if bo.Op == token.ADD && strings.Contains(symKey(bo.X), "r.Start") {
+		if bo.Op == token.ADD && strings.Contains(symKey(bo.X), "$0.Start") {
 			addStart = true
 		}
 	})
@@ -609,7 +609,7 @@ func ruleOffsetFits(c *Ctx, r *Rep, tier string) {
 		allInstrs(rd, func(ins ssa.Instruction) {
 			if u, ok := ins.(*ssa.UnOp); ok && u.Op == token.MUL {
 				if fa, ok := u.X.(*ssa.FieldAddr); ok && fieldVarOfAddr(fa).Name() == name {
-					if al, ok := fa.X.(*ssa.Alloc); ok && al.Comment == "r" {
+					if al, ok := fa.X.(*ssa.Alloc); ok && isRecordVar(al) {
 						out = append(out, u)
 					}
 				}
